@@ -15,11 +15,12 @@ def main():
         runner._write_params(mod, ctx)
         for p in ctx.problems:
             print(f"setup: {name}: {p['detail']}")
-    ok, log = coqrun.make([], timeout=3000)
+    # keep going: a file that does not compile only disables the properties that depend on it (their checks then
+    # report the broken proof obligation themselves); it must not prevent the other properties from being checked
+    ok, log = coqrun.make([], timeout=3000, keep_going=True)
     print(log[-3000:])
     if not ok:
-        print("setup: Coq build FAILED")
-        sys.exit(1)
+        print("setup: WARNING some Coq files did not compile (see above); the checks depending on them will report it")
     ext = os.path.join(coqrun.COQ, "Extract", "build.sh")
     if os.path.exists(ext):
         r = subprocess.run(["sh", ext], cwd=os.path.dirname(ext))
